@@ -240,3 +240,13 @@ Example window_example :
                     (XBin CMul (XParen (XLit 2)) (XParen (XStride 5 1))),
           [XStride 5 1]).
 Proof. reflexivity. Qed.
+
+(** window of a window over a strided 2-d view: x[1:4, 2] then w[1:3]; element 1 of the inner window is base cell (3, 2) *)
+Example window_of_window_example :
+  let dims := [(4, 10); (5, 2)] in
+  Sem.apply_window dims [Sem.IntervalV 1 4; Sem.PointV 2] 7 = Sem.Ok (21, [(3, 10)]) /\
+  Sem.apply_window [(3, 10)] [Sem.IntervalV 1 3] 21 = Sem.Ok (31, [(2, 10)]) /\
+  Sem.flat_index [(2, 10)] [1] 31 = Sem.Ok 41 /\
+  merge_idx [Sem.IntervalV 1 4; Sem.PointV 2] (merge_idx [Sem.IntervalV 1 3] [1]) = [3; 2] /\
+  Sem.flat_index dims [3; 2] 7 = Sem.Ok 41.
+Proof. cbv. repeat split; reflexivity. Qed.
